@@ -469,8 +469,7 @@ def load_database(dbpath, rootdir):
                 filedir = command.directory
             else:
                 filedir = os.path.abspath(
-                    rootdir,
-                    os.path.join(command.directory),
+                    os.path.join(rootdir, command.directory),
                 )
 
         if os.path.isabs(command.filename):
